@@ -10,7 +10,7 @@ CONSTANTS
   MaxOps = 1000
   Kinds = {"lite", "lites", "ntag"}
   Defects = {"lites_none_subscript", "lites_protect_encode", "ndef_none_subscript"}
-  AdvKinds = {"flipdata", "flipmac", "swap", "replay", "pad"}
+  AdvKinds = {"flipdata", "flipmac", "swap", "replay", "pad", "count"}
   InitP = {"p0"}
   InitQ = {"q0"}
   InitBlk = "all"
